@@ -583,7 +583,7 @@ assign_int_float(To& to, const From from, Rounding_Dir dir) {
     to = from;
     return V_LGE;
   }
-  From i_from = rint(from);
+  From i_from = std::rint(from);
   to = i_from;
   if (from == i_from) {
     return V_EQ;
